@@ -7,7 +7,9 @@ LEVEL = "model_checking"
 
 
 def owns(e, k):
-    return e["op"] in fsc.LIST_OPS
+    # listings, and the existence queries put to the listed paths ("every listed path exists according to the
+    # filesystem's own existence queries")
+    return e["op"] in fsc.LIST_OPS or bool(e.get("sound_of"))
 
 
 def run(ctx):
@@ -20,7 +22,7 @@ def run(ctx):
                 "localized.")
     # listings are also taken around every mutation, on one filesystem object: before it, after it, and after it on a
     # clone made before it (what was listed earlier must not influence what is listed later)
-    ev, rec = fsc.run_fs(ctx, "c13", lambda e: e["op"] in fsc.LIST_OPS, owns, profile="c13", sandwich="c13",
+    ev, rec = fsc.run_fs(ctx, "c13", lambda e: e["op"] in fsc.LIST_OPS, owns, profile="c13", sandwich="c13", sound=True,
                          mutations=lambda e: (e["op"] == "write" and e["data"] == [1, 2, 3]) or e["op"] == "create_dir"
                          or e["op"] == "write_archive")
     both = [e for e in ev + rec if e["op"] in fsc.LIST_OPS]
